@@ -1,5 +1,6 @@
 """Per-property registry used by bin/check: theorem lists, generator profiles, spec relations."""
 import re
+import os
 
 TRUSTED_BASE = [
     "Lean 4.33 kernel (thorough tier: re-checked by leanchecker); axioms allowed: propext, Classical.choice, Quot.sound",
@@ -328,3 +329,53 @@ PROPS = {
         ],
     },
 }
+
+
+# ---------------------------------------------------------------------------------------------- connection-level properties
+# One generated history serves all of them: the real connection is driven op by op (harness/src/conn.rs), the Lean
+# connection model (h2vconn, H2V/Model/Conn*.lean) answers the same ops (correspondence), and the RFC-level wire
+# monitors (H2V/Spec/Wire.lean, Http.lean, Verdict.lean) judge the real trace; each monitor rule carries the id of the
+# property it belongs to, a property's check keeps its own.
+
+def _load_theorems(pid):
+    """theorem lists written next to the agent-proved property files (H2V/Props/<pid>.theorems.json)"""
+    import json as _json
+    path = os.path.join(os.path.dirname(os.path.abspath(__file__)), "..", "lean", "H2V", "Props", pid + ".theorems.json")
+    if not os.path.exists(path):
+        return []
+    return [("H2V.Props." + pid, t) for t in _json.load(open(path))]
+
+
+CONN_PROFILES = [
+    {"name": "conn-client-flow", "quick": 80, "thorough": 1500, "shards": {"quick": 1, "thorough": 8}},
+    {"name": "conn-client", "quick": 80, "thorough": 1500, "shards": {"quick": 1, "thorough": 8}},
+    {"name": "conn-server", "quick": 80, "thorough": 1500, "shards": {"quick": 1, "thorough": 8}},
+    {"name": "conn-c09-client", "quick": 100, "thorough": 1500, "shards": {"quick": 1, "thorough": 4}},
+    {"name": "conn-c09-server", "quick": 100, "thorough": 1500, "shards": {"quick": 1, "thorough": 4}},
+]
+
+CONN_ASSUMPTIONS = [
+    "the connection model H2V/Model/Conn*.lean is hand-written; it is tied to the code by the op-by-op comparison of every "
+    "answer field (result, frames written, wake-ups, state digest) on the generated histories of this run",
+    "the state digest is computed by the harness from the Debug rendering of the real structures (hook feature hyperium_h2_verif)",
+    "wire monitors see the peer's frames when they are queued to the transport, with explicit exemptions for frames already "
+    "inside the codec (cb=, cbh=)",
+]
+
+
+def _cb(ths):
+    return [("H2V.Props.CompBase", "H2V.Props.CompBase." + t) for t in ths]
+
+
+PROPS["C02"] = conn_prop(
+    ["H2V.Props.CompBase"] + (["H2V.Props.C02"] if _load_theorems("C02") else []),
+    _cb(["C02.send_data_within_window", "C02.window_ledger", "C02.window_never_above_max"]) + _load_theorems("C02"),
+    CONN_PROFILES, assumptions=CONN_ASSUMPTIONS)
+PROPS["C03"] = conn_prop(
+    ["H2V.Props.CompBase"] + (["H2V.Props.C03"] if _load_theorems("C03") else []),
+    _cb(["C03.inc_window_exact", "C03.available_ledger", "C02.window_never_above_max"]) + _load_theorems("C03"),
+    CONN_PROFILES, assumptions=CONN_ASSUMPTIONS)
+PROPS["C04"] = conn_prop(
+    ["H2V.Props.CompBase"] + (["H2V.Props.C04"] if _load_theorems("C04") else []),
+    _cb(["C04.state_machine_refines_rfc"]) + _load_theorems("C04"),
+    CONN_PROFILES, assumptions=CONN_ASSUMPTIONS)
